@@ -42,6 +42,8 @@ def finder_of(name):
         f = FindInPaths(name.split(":", 1)[1])
     elif name == "paths":
         f = FindInPaths()
+    elif name.startswith("all:"):
+        f = FindInAll(name.split(":", 1)[1])          # (the data configuration decides what the key means; the answer is a pure function of it)
     else:
         f = FindInAll()
     FINDERS[name] = f
